@@ -37,6 +37,14 @@ SubAll(subs, hs) == IF hs = <<>> THEN subs ELSE SubAll(Subscribe(subs, hs[1][1],
 RECURSIVE UnsubAll(_, _)
 UnsubAll(subs, hs) == IF hs = <<>> THEN subs ELSE UnsubAll(Unsubscribe(subs, hs[1][1], hs[1][2]), Tail(hs))
 
+\* a node leaving the network unsubscribes its handlers one after the other; the first one that is not
+\* subscribed any more (the application has unsubscribed it itself) makes the call raise at that point
+RECURSIVE UnsubUntilMissing(_, _)
+UnsubUntilMissing(subs, hs) ==
+    IF hs = <<>> THEN [subs |-> subs, ok |-> TRUE]
+    ELSE IF ~InSeq(SubsOf(subs, hs[1][1]), hs[1][2]) THEN [subs |-> subs, ok |-> FALSE]
+    ELSE UnsubUntilMissing(Unsubscribe(subs, hs[1][1], hs[1][2]), Tail(hs))
+
 \* nodes : function from node ids present to [kind, gen, extra]
 \*   extra: tx COB-IDs of additional SDO channels of a remote node (RemoteNode.add_sdo); their
 \*   response handlers are registered after the default channel's and removed with the node
